@@ -8,6 +8,7 @@ import (
 	"bufio"
 	"fmt"
 	"go/token"
+	"go/types"
 	"os"
 	"os/exec"
 	"path/filepath"
@@ -95,6 +96,8 @@ func bidx(c *Ctx, rule string, funcs []*ssa.Function, exempt map[string]string) 
 		}
 		c.Analysed[fname(f)] = true
 		lb := &LB{p: c.P, f: f, UsedContracts: map[string]bool{}}
+		cfacts, cdesc := callerFacts(c.P, f)
+		lb.extra = cfacts
 		names := map[ssa.Value]string{}
 		for _, p := range f.Params {
 			names[p] = p.Name()
@@ -128,16 +131,12 @@ func bidx(c *Ctx, rule string, funcs []*ssa.Function, exempt map[string]string) 
 			}
 			if lb.proveSite(s) {
 				st.lin++
-				c.Holds(rule, fname(f), construct, "in bounds (LinBounds)", s.Instr.Pos())
-				continue
-			}
-			// one level of caller-established facts for unexported helpers
-			if cf, desc := callerFacts(c.P, f); len(cf) > 0 {
-				if lb.prove(s.Goals, s.Instr.Block(), cf, map[lvar]lin{}, 0) {
-					st.lin++
-					c.Holds(rule, fname(f), construct, "in bounds (LinBounds with facts proven at every call site: "+desc+")", s.Instr.Pos())
-					continue
+				d := "in bounds (LinBounds)"
+				if len(cfacts) > 0 {
+					d = "in bounds (LinBounds; facts proven at every call site: " + cdesc + ")"
 				}
+				c.Holds(rule, fname(f), construct, d, s.Instr.Pos())
+				continue
 			}
 			st.unproved++
 			key := rule + "|" + fname(f) + "|" + construct
@@ -231,44 +230,126 @@ func buildCallIndex(p *Prog) {
 	}
 }
 
-// callerFacts: constant upper bounds on integer parameters of an unexported function that
-// every static call site in the repository establishes (proved in the caller's context).
+// helperContext: exported functions that a property analyses only in the context of their
+// repository callers (internal helpers that happen to be exported). Set by the property.
+var helperContext = map[string]bool{}
+
+var callerFactBusy = map[*ssa.Function]bool{}
+
+// callerFacts: constant bounds on integer parameters (0 <= p <= K) and minimum lengths of slice
+// parameters (len(p) >= K) of an unexported function (or a declared helper) that every static call
+// site in the repository establishes, proved in the caller's context (recursively, depth-limited).
 func callerFacts(p *Prog, f *ssa.Function) ([]cons, string) {
 	if cf, ok := callerFactCache[f]; ok {
 		return cf, callerFactDesc[f]
 	}
-	callerFactCache[f] = nil
-	if f.Object() == nil || f.Object().Exported() || f.Signature.Recv() != nil {
+	if callerFactBusy[f] {
 		return nil, ""
+	}
+	callerFactBusy[f] = true
+	defer delete(callerFactBusy, f)
+	callerFactCache[f] = nil
+	isAnon := f.Parent() != nil
+	if !isAnon {
+		if f.Object() == nil || f.Signature.Recv() != nil {
+			return nil, ""
+		}
+		if f.Object().Exported() && !helperContext[fname(f)] {
+			return nil, ""
+		}
 	}
 	buildCallIndex(p)
 	sites := callSiteIndex[f]
-	if len(sites) == 0 || addrTaken[f] {
+	if isAnon {
+		// closures: static calls plus calls through the MakeClosure value in the parent
+		instrsOf(f.Parent(), func(_ *ssa.BasicBlock, in ssa.Instruction) {
+			if ci, ok := in.(ssa.CallInstruction); ok {
+				if mc, ok := ci.Common().Value.(*ssa.MakeClosure); ok && mc.Fn == ssa.Value(f) {
+					sites = append(sites, ci)
+				}
+			}
+		})
+	} else if addrTaken[f] {
+		return nil, ""
+	}
+	if len(sites) == 0 {
 		return nil, ""
 	}
 	var out []cons
 	var descs []string
-	cands := []int64{0, 1, 3, 7, 8, 15, 16, 31, 32, 63, 64, 127, 255, 256, 511, 1023, 65535}
+	proveAt := func(cs ssa.CallInstruction, goals []cons) bool {
+		caller := cs.Parent()
+		lb := &LB{p: p, f: caller, UsedContracts: map[string]bool{}}
+		lb.extra, _ = callerFacts(p, caller)
+		return lb.prove(goals, cs.Block(), nil, map[lvar]lin{}, 0)
+	}
+	cands := []int64{0, 1, 3, 7, 8, 15, 16, 31, 32, 63, 64, 127, 128, 255, 256, 511, 1023, 65535}
+	lens := []int64{64, 32, 16, 8, 4, 2, 1}
 	for i, prm := range f.Params {
-		if _, _, ok := intKind(prm.Type()); !ok {
-			continue
-		}
-		for _, k := range cands {
-			all := true
-			for _, cs := range sites {
-				caller := cs.Parent()
-				lb := &LB{p: p, f: caller, UsedContracts: map[string]bool{}}
-				arg := cs.Common().Args[i]
-				if !lb.prove([]cons{le(lb.linOf(arg), linConst(k)), ge(lb.linOf(arg), linConst(0))}, cs.Block(), nil, map[lvar]lin{}, 0) {
-					all = false
+		if _, _, ok := intKind(prm.Type()); ok {
+			for _, k := range cands {
+				all := true
+				for _, cs := range sites {
+					lb := &LB{p: p, f: cs.Parent(), UsedContracts: map[string]bool{}}
+					arg := cs.Common().Args[i]
+					if !proveAt(cs, []cons{le(lb.linOf(arg), linConst(k)), ge(lb.linOf(arg), linConst(0))}) {
+						all = false
+						break
+					}
+				}
+				if all {
+					me := linVar(lvar{0, prm})
+					out = append(out, le(me, linConst(k)), ge(me, linConst(0)))
+					descs = append(descs, fmt.Sprintf("0 <= %s <= %d at %d call sites", prm.Name(), k, len(sites)))
 					break
 				}
+				if k == cands[len(cands)-1] {
+					// no constant upper bound: try the lower bound alone
+					for _, lo := range []int64{1, 0} {
+						allLo := true
+						for _, cs := range sites {
+							lb := &LB{p: p, f: cs.Parent(), UsedContracts: map[string]bool{}}
+							if !proveAt(cs, []cons{ge(lb.linOf(cs.Common().Args[i]), linConst(lo))}) {
+								allLo = false
+								break
+							}
+						}
+						if allLo {
+							out = append(out, ge(linVar(lvar{0, prm}), linConst(lo)))
+							descs = append(descs, fmt.Sprintf("%s >= %d at %d call sites", prm.Name(), lo, len(sites)))
+							break
+						}
+					}
+				}
 			}
-			if all {
-				me := linVar(lvar{0, prm})
-				out = append(out, le(me, linConst(k)), ge(me, linConst(0)))
-				descs = append(descs, fmt.Sprintf("0 <= %s <= %d at %d call sites", prm.Name(), k, len(sites)))
-				break
+			continue
+		}
+		if _, isSl := prm.Type().Underlying().(*types.Slice); isSl {
+			for _, k := range lens {
+				all := true
+				exact := true
+				for _, cs := range sites {
+					lb := &LB{p: p, f: cs.Parent(), UsedContracts: map[string]bool{}}
+					arg := cs.Common().Args[i]
+					if !proveAt(cs, []cons{ge(lb.lenLin(arg), linConst(k))}) {
+						all = false
+						break
+					}
+					if !proveAt(cs, []cons{le(lb.lenLin(arg), linConst(k))}) {
+						exact = false
+					}
+				}
+				if all {
+					me := linVar(lvar{1, prm})
+					out = append(out, ge(me, linConst(k)))
+					d := fmt.Sprintf("len(%s) >= %d at %d call sites", prm.Name(), k, len(sites))
+					if exact {
+						out = append(out, le(me, linConst(k)))
+						d = fmt.Sprintf("len(%s) == %d at %d call sites", prm.Name(), k, len(sites))
+					}
+					descs = append(descs, d)
+					break
+				}
 			}
 		}
 	}
